@@ -1000,9 +1000,15 @@ impl ElementRaw {
             // compare the new element to the existing elements
             for (idx, content_item) in self.content.iter().enumerate() {
                 if let ElementContent::Element(subelement) = content_item {
-                    let (_, existing_element_indices) = elemtype
+                    // an existing sub element might not be valid in this version (e.g. after a file with an older
+                    // version was added to the model); then it is looked up without the version restriction
+                    let Some((_, existing_element_indices)) = elemtype
                         .find_sub_element(subelement.element_name(), version as u32)
-                        .unwrap();
+                        .or_else(|| elemtype.find_sub_element(subelement.element_name(), u32::MAX))
+                    else {
+                        // not a known sub element at all: it does not restrict the position of the new element
+                        continue;
+                    };
                     let group_type = elemtype.find_common_group(&new_element_indices, &existing_element_indices);
                     match group_type.content_mode() {
                         ContentMode::Sequence => {
